@@ -6,9 +6,11 @@ import (
 	"errors"
 	"fmt"
 	"io"
+	"math"
 	"net/http"
 	"net/http/httptest"
 	"net/url"
+	"os"
 	"sort"
 	"strconv"
 	"strings"
@@ -42,7 +44,9 @@ func parseGoErr(s string) goErr {
 		return goErr{kind: s}
 	case strings.HasPrefix(s, "plain:"):
 		return goErr{kind: "plain", text: string(unhx(s[6:]))}
-	case strings.HasPrefix(s, "coded:"), strings.HasPrefix(s, "codedctx:"), strings.HasPrefix(s, "codedwrap:"):
+	case strings.HasPrefix(s, "plaineof:"), strings.HasPrefix(s, "plaintmo:"):
+		return goErr{kind: s[:8], text: string(unhx(s[9:]))}
+	case strings.HasPrefix(s, "coded:"), strings.HasPrefix(s, "codedctx:"), strings.HasPrefix(s, "codedwrap:"), strings.HasPrefix(s, "codedeof:"):
 		kind := s[:strings.IndexByte(s, ':')]
 		p := strings.SplitN(s[len(kind)+1:], "@", 2)
 		return goErr{kind: kind, w: parseWireErr(p[0]), meta: parseHdr(p[1])}
@@ -60,8 +64,18 @@ func (g goErr) build() error {
 		return context.DeadlineExceeded
 	case "plain":
 		return errors.New(g.text)
+	case "plaineof":
+		// an ordinary error of the application that happens to wrap io.EOF (a backend hung up)
+		return &textOver{text: g.text, inner: io.EOF}
+	case "plaintmo":
+		// ... or an I/O timeout of its own (os.ErrDeadlineExceeded; Timeout() is true): still an
+		// uncoded error, nothing to do with the call's deadline
+		return &textOver{text: g.text, inner: os.ErrDeadlineExceeded}
 	}
 	var cause error = errors.New(g.w.msg)
+	if g.kind == "codedeof" {
+		cause = &textOver{text: g.w.msg, inner: io.EOF}
+	}
 	if g.kind == "codedctx" {
 		// the handler's own coded error, whose cause happens to be a context error
 		cause = &textOver{text: g.w.msg, inner: context.DeadlineExceeded}
@@ -556,9 +570,9 @@ func clientRoundtrip(c *Ctx, op, proto, kind string, rec recorded, h, t hdr, sen
 		}
 		var want *wireErr
 		switch result.kind {
-		case "coded", "codedctx", "codedwrap":
+		case "coded", "codedctx", "codedwrap", "codedeof":
 			want = result.w
-		case "plain":
+		case "plain", "plaineof", "plaintmo":
 			want = &wireErr{code: 2, msg: result.text}
 		case "canceled":
 			want = &wireErr{code: 1, msg: "context canceled"}
@@ -654,8 +668,17 @@ func cdecOp(c *Ctx, op string) {
 				term = true
 			}
 		}
-		if proto != "connect" && (len(r.trailer["Grpc-Status"]) > 0 || len(r.header["Grpc-Status"]) > 0) {
+		if proto == "grpc" && len(r.trailer["Grpc-Status"]) > 0 {
 			term = true
+		}
+		if proto != "connect" && len(r.header["Grpc-Status"]) > 0 {
+			// the trailers-only form - of a response that then has no body to lose
+			term = true
+			for _, it := range r.body {
+				if it.kind == "raw" || (it.kind == "f" && (it.flags != 0 || (len(it.data) > 0 && it.data[0] == 0xEE))) {
+					term = false // a body the client cannot read to its end: nothing ends it
+				}
+			}
 		}
 		if !term {
 			c.Fail("term-missing-success", op, ans, "the call was reported successful although the response carries no end-of-stream marker")
@@ -1046,6 +1069,67 @@ func cancelAtEndProbe(c *Ctx) {
 						break
 					}
 				}
+			}
+		}
+	}
+}
+
+// midStreamAccessorProbe (C03): what the accessors of a stream show *between* Receives - after
+// the last message, before the Receive that finds the end - depends on the bytes received so
+// far, not on whether the transport has already reported the end of the body with them.
+func midStreamAccessorProbe(c *Ctx) {
+	for _, proto := range []string{"connect", "grpc", "grpcweb"} {
+		items := []bodyItem{{kind: "f", data: []byte{1, 7}}, {kind: "f", data: []byte{2, 7}}}
+		r := &sresp{status: 200, header: hdr{"Content-Type": {ctFor(proto, "server", "raw")}, "X-H": {"h"}}, body: items}
+		tr := hdr{"Grpc-Status": {"0"}, "Grpc-Message": {""}, "X-After": {"tail"}}
+		switch proto {
+		case "connect":
+			r.body = append(r.body, bodyItem{kind: "end", header: hdr{"X-After": {"tail"}}})
+		case "grpcweb":
+			r.body = append(r.body, bodyItem{kind: "web", header: tr})
+		default:
+			r.trailer = tr
+		}
+		header, body, trailer := r.serialize(proto)
+		run := func(shape transportShape) string {
+			return safely(func() string {
+				sc := &shapedClient{status: 200, header: header, trailer: trailer, body: body, shape: shape}
+				opts := []connect.ClientOption{connect.WithCodec(rawCodec{"raw"})}
+				if proto == "grpc" {
+					opts = append(opts, connect.WithGRPC())
+				} else if proto == "grpcweb" {
+					opts = append(opts, connect.WithGRPCWeb())
+				}
+				cl := connect.NewClient[[]byte, []byte](sc, "http://h/s/m", opts...)
+				st, err := cl.CallServerStream(context.Background(), connect.NewRequest(&[]byte{}))
+				if err != nil {
+					return "call:" + err.Error()
+				}
+				defer st.Close()
+				var obs []string
+				look := func() {
+					var keys []string
+					for k, v := range st.ResponseTrailer() {
+						keys = append(keys, k+"="+strings.Join(v, ","))
+					}
+					sort.Strings(keys)
+					obs = append(obs, fmt.Sprintf("trailer{%s} header X-H=%s", strings.Join(keys, ";"), st.ResponseHeader().Get("X-H")))
+				}
+				for i := 0; i < 2 && st.Receive(); i++ {
+					look()
+				}
+				more := st.Receive()
+				look()
+				return fmt.Sprintf("%s more=%v err=%s", strings.Join(obs, " | "), more, codeOrOK(st.Err()))
+			})
+		}
+		base := run(transportShape{chunk: 0, eofWithData: false})
+		for _, shape := range []transportShape{{chunk: 0, eofWithData: true}, {chunk: 1, eofWithData: true}, {chunk: 4, eofWithData: false}} {
+			c.Count("probe-midstream-accessors")
+			if alt := run(shape); alt != base {
+				c.Fail("seg-transport-shape", proto+" server stream, ResponseTrailer()/ResponseHeader() read after each message and after the end",
+					fmt.Sprintf("reads of %d bytes, EOF with data=%v: %s  |  one piece, EOF separately: %s", shape.chunk, shape.eofWithData, alt, base),
+					"what the accessors show between Receives depends on how the transport reports the end of the body")
 			}
 		}
 	}
@@ -1460,14 +1544,216 @@ func terminatorLostProbes(c *Ctx) {
 	}
 }
 
+// unserializableErrorProbe (C18, oracle only): a unary Connect handler fails with an error that
+// cannot be written as JSON (a detail whose type this binary does not know - a forwarding
+// handler passes such Anys on): whatever the body says, the HTTP status is an error status in
+// 400..599 - never 200 - for every code value, and a client sees a failure.
+func unserializableErrorProbe(c *Ctx) {
+	for _, code := range []connect.Code{connect.CodeNotFound, connect.CodeUnauthenticated, connect.CodeCanceled, connect.Code(17), connect.Code(4294967295), connect.Code(0)} {
+		desc := fmt.Sprintf("unary Connect handler returns code %d with a detail of a type unknown to this binary", uint32(code))
+		c.Count("probe-unserializable-error")
+		got := safely(func() string {
+			h := connect.NewUnaryHandler("/s/m", func(ctx context.Context, r *connect.Request[[]byte]) (*connect.Response[[]byte], error) {
+				e := connect.NewError(code, errors.New("upstream says no"))
+				e.AddDetail(&anypb.Any{TypeUrl: "type.googleapis.com/acme.v9.NotLinkedIn", Value: []byte{8, 1}})
+				return nil, e
+			}, connect.WithCodec(rawCodec{"raw"}))
+			rec := serveReal("connect", "unary", false, h)
+			cl := connect.NewClient[[]byte, []byte](&staticClient{status: rec.status, header: rec.header, body: rec.body}, "http://h/s/m", connect.WithCodec(rawCodec{"raw"}))
+			_, err := cl.CallUnary(context.Background(), connect.NewRequest(&[]byte{1}))
+			return fmt.Sprintf("status=%d client-sees-error=%v", rec.status, err != nil)
+		})
+		var status int
+		var sees bool
+		_, _ = fmt.Sscanf(got, "status=%d client-sees-error=%t", &status, &sees)
+		if status < 400 || status > 599 || !sees {
+			c.Fail("http-error-status-not-error", desc, got, "a handler error maps to an HTTP status in 400..599 and never reaches the peer as success")
+		}
+	}
+}
+
+// codeTextProbes (C06/C18, oracle only): in the JSON forms of an error the code is one of the
+// defined lower-case names or code_<number>. A peer's text that differs from a valid one only
+// by letter case (gRPC enum spelling, a Kelvin sign) is not a code: the client treats it exactly
+// as it treats any other garbage text - for unary errors the code comes from the HTTP status.
+func codeTextProbes(c *Ctx) {
+	view := func(kind string, text string) string {
+		return safely(func() string {
+			var sc *staticClient
+			if kind == "unary" {
+				sc = &staticClient{status: 503, header: http.Header{"Content-Type": {"application/json"}}, body: []byte(`{"code":"` + text + `","message":"m"}`)}
+			} else {
+				end := []byte(`{"error":{"code":"` + text + `","message":"m"}}`)
+				sc = &staticClient{status: 200, header: http.Header{"Content-Type": {"application/connect+raw"}}, body: append(frame(0, []byte{1}), frame(2, end)...)}
+			}
+			v := callClient("connect", kind, sc, nil, [][]byte{{1}})
+			if v.err == nil {
+				return "success"
+			}
+			w, _, ok := errView(v.err)
+			if !ok {
+				return "uncoded"
+			}
+			return strconv.Itoa(w.code)
+		})
+	}
+	for _, kind := range []string{"unary", "server"} {
+		baseline := view(kind, "zzz_not_a_code")
+		for _, text := range []string{"NOT_FOUND", "Not_Found", "Canceled", "CANCELED", "Permission_Denied", "CODE_17", "Code_99", "un\u212anown", "UNKNOWN", "Data_Loss", "not_Found"} {
+			c.Count("probe-code-text")
+			if got := view(kind, text); got != baseline {
+				// (one finding, two owners: C06 speaks of the client's verdict, C18 of the text codec)
+				for _, key := range []string{"client-code-text-accepted", "code-accepts-garbage"} {
+					c.Fail(key, fmt.Sprintf("Connect %s call, peer's error carries the code text %q", kind, text), got, "a text that is neither a defined name nor code_<number> is not a code: want the same outcome as for garbage text ("+baseline+")")
+				}
+			}
+		}
+	}
+}
+
+// lengthClient answers like staticClient but also announces a Content-Length of its choosing
+// (the field is the peer's claim; what arrives is the body).
+type lengthClient struct {
+	staticClient
+	length int64
+}
+
+func (l *lengthClient) Do(req *http.Request) (*http.Response, error) {
+	res, err := l.staticClient.Do(req)
+	if res != nil {
+		res.ContentLength = l.length
+	}
+	return res, err
+}
+
+// contentLengthProbes (C06, oracle only): whatever Content-Length a response announces -
+// absurdly large, smaller than the body, negative - the call terminates without panicking,
+// with success or a coded error.
+func contentLengthProbes(c *Ctx) {
+	for _, proto := range []string{"connect", "grpc", "grpcweb"} {
+		for _, kind := range []string{"unary", "server"} {
+			body := frame(0, []byte{1, 2, 3})
+			trailer := http.Header{}
+			switch {
+			case proto == "connect" && kind == "unary":
+				body = []byte{1, 2, 3}
+			case proto == "connect":
+				body = append(body, frame(2, []byte("{}"))...)
+			case proto == "grpcweb":
+				body = append(body, frame(0x80, []byte("grpc-status: 0\r\n"))...)
+			default:
+				trailer = http.Header{"Grpc-Status": {"0"}}
+			}
+			for _, length := range []int64{1 << 62, math.MaxInt64, 2, 0, -1, -7} {
+				for _, status := range []int{200, 503} {
+					desc := fmt.Sprintf("%s %s call, response status %d announcing Content-Length %d over a %d-byte body", proto, kind, status, length, len(body))
+					c.Count("probe-content-length")
+					c.Begin(desc)
+					got := safely(func() string {
+						lc := &lengthClient{staticClient{status: status, header: http.Header{"Content-Type": {ctFor(proto, kind, "raw")}}, trailer: trailer, body: body}, length}
+						v := callClient(proto, kind, lc, nil, [][]byte{{1}})
+						if v.err == nil {
+							return "ok"
+						}
+						if w, _, ok := errView(v.err); !ok || w.code == 0 {
+							return "uncoded or zero code: " + v.err.Error()
+						}
+						return "ok"
+					})
+					if got != "ok" {
+						c.Fail("client-panic", desc, got, "the client must fail safely whatever Content-Length the peer announces")
+					}
+				}
+			}
+		}
+	}
+}
+
+// userCodecProbe (C05, oracle only): a codec the application registers under one of the two
+// built-in names ("proto", "json") is the codec that is used - on handlers and on clients: the
+// bytes on the wire are the application's, and a peer using the same codec is understood.
+func userCodecProbe(c *Ctx) {
+	for _, name := range []string{"json", "proto"} {
+		for _, proto := range []string{"connect", "grpc", "grpcweb"} {
+			for _, kind := range []string{"unary", "server"} {
+				desc := fmt.Sprintf("%s %s call, handler and client both register their own codec under the built-in name %q", proto, kind, name)
+				c.Count("probe-user-codec")
+				got := safely(func() string {
+					var seen []byte
+					hopts := []connect.HandlerOption{connect.WithCodec(rawCodec{name})}
+					var h *connect.Handler
+					if kind == "unary" {
+						h = connect.NewUnaryHandler("/s/m", func(ctx context.Context, r *connect.Request[[]byte]) (*connect.Response[[]byte], error) {
+							seen = append([]byte{}, (*r.Msg)...)
+							return connect.NewResponse(&[]byte{9, 8, 7}), nil
+						}, hopts...)
+					} else {
+						h = connect.NewServerStreamHandler("/s/m", func(ctx context.Context, r *connect.Request[[]byte], s *connect.ServerStream[[]byte]) error {
+							seen = append([]byte{}, (*r.Msg)...)
+							return s.Send(&[]byte{9, 8, 7})
+						}, hopts...)
+					}
+					copts := []connect.ClientOption{connect.WithCodec(rawCodec{name})}
+					if proto == "grpc" {
+						copts = append(copts, connect.WithGRPC())
+					} else if proto == "grpcweb" {
+						copts = append(copts, connect.WithGRPCWeb())
+					}
+					v := callClient2(proto, kind, &inprocClient{h: h}, copts, []byte{1, 2, 3})
+					if v.err != nil {
+						return "call failed: " + v.err.Error()
+					}
+					if !bytes.Equal(seen, []byte{1, 2, 3}) || len(v.msgs) != 1 || !bytes.Equal(v.msgs[0], []byte{9, 8, 7}) {
+						return fmt.Sprintf("handler saw %v, client got %v", seen, v.msgs)
+					}
+					return "ok"
+				})
+				if got != "ok" {
+					c.Fail("wire-user-codec-replaced", desc, got, "the application's codec was not the one used")
+				}
+			}
+		}
+	}
+}
+
+// callClient2: one unary or server-streaming call with explicit client options.
+func callClient2(proto, kind string, hc connect.HTTPClient, opts []connect.ClientOption, msg []byte) (v clientView) {
+	cl := connect.NewClient[[]byte, []byte](hc, "http://h/s/m", opts...)
+	if kind == "unary" {
+		res, err := cl.CallUnary(context.Background(), connect.NewRequest(&msg))
+		if err != nil {
+			v.err = err
+			return v
+		}
+		v.msgs = [][]byte{*res.Msg}
+		return v
+	}
+	st, err := cl.CallServerStream(context.Background(), connect.NewRequest(&msg))
+	if err != nil {
+		v.err = err
+		return v
+	}
+	for st.Receive() {
+		v.msgs = append(v.msgs, append([]byte{}, (*st.Msg())...))
+	}
+	v.err = st.Err()
+	_ = st.Close()
+	return v
+}
+
 func extraProbes(c *Ctx) {
 	metadataProbes(c)
+	userCodecProbe(c)
+	contentLengthProbes(c)
+	unserializableErrorProbe(c)
+	codeTextProbes(c)
 	terminatorLostProbes(c)
 	truncatedErrorBodyProbes(c)
 	requestWireProbes(c)
 	sharedKeyProbes(c)
 	unconvertibleDetailProbe(c)
 	cancelAtEndProbe(c)
+	midStreamAccessorProbe(c)
 	// (1) every error a client API returns can be inspected as a Connect error — including the one
 	// from closing a response whose body fails while being drained
 	for _, proto := range []string{"connect", "grpc", "grpcweb"} {
@@ -1603,9 +1889,9 @@ func genDetails(r *Rng) []string {
 
 func showGoErr(g goErr) string {
 	switch g.kind {
-	case "plain":
-		return "plain:" + hx([]byte(g.text))
-	case "coded", "codedctx", "codedwrap":
+	case "plain", "plaineof", "plaintmo":
+		return g.kind + ":" + hx([]byte(g.text))
+	case "coded", "codedctx", "codedwrap", "codedeof":
 		return g.kind + ":" + showWireErr(g.w) + "@" + showHdr(g.meta)
 	}
 	return g.kind
@@ -1664,6 +1950,11 @@ func streamProto(c *Ctx) {
 				results = append(results, goErr{kind: k, w: &wireErr{code: 14, msg: "backend did not answer", details: genDetails(r)}, meta: genHeader(r, mkeys)})
 				results = append(results, goErr{kind: k, w: &wireErr{code: 1 + r.Intn(16), msg: errorTexts[r.Intn(len(errorTexts))]}, meta: genHeader(r, mkeys)})
 			}
+			// an Unknown-coded error whose cause is a context error keeps its metadata and details
+			results = append(results, goErr{kind: "codedctx", w: &wireErr{code: 2, msg: "upstream gave up", details: genDetails(r)}, meta: hdr{"X-Err": {"a", "b"}, "X-Err-Bin": {connect.EncodeBinaryHeader([]byte{0, 1, 255})}}})
+			// errors that wrap io.EOF or an I/O timeout are errors like any other
+			results = append(results, goErr{kind: "codedeof", w: &wireErr{code: 15, msg: "backend closed early", details: genDetails(r)}, meta: genHeader(r, mkeys)})
+			results = append(results, goErr{kind: "plaineof", text: "read upstream: EOF"}, goErr{kind: "plaintmo", text: "read tcp 10.0.0.1:443: i/o timeout"})
 			for i := 0; i < reps; i++ {
 				results = append(results, goErr{kind: "none"})
 			}
@@ -1796,6 +2087,25 @@ func mutatedResponses(c *Ctx) {
 							cdecOp(c, cdecLineMax(proto, kind, 8, &sresp{status: 200, header: hdr{"Content-Type": {ct}}, body: append(items, bodyItem{kind: "web", header: tr})}))
 						}
 					}
+				}
+				// the status where this protocol does not look for it: gRPC-Web's terminator is the
+				// trailer frame in the body - real HTTP trailers (a proxy's, another server's) do not
+				// stand in for it
+				if proto == "grpcweb" {
+					for _, st := range []string{"0", "5"} {
+						cdecOp(c, cdecLine(proto, kind, &sresp{status: 200, header: hdr{"Content-Type": {ct}}, body: []bodyItem{{kind: "f", data: []byte{1}}}, trailer: hdr{"Grpc-Status": {st}, "X-T": {"1"}}}))
+						cdecOp(c, cdecLine(proto, kind, &sresp{status: 200, header: hdr{"Content-Type": {ct}}, trailer: hdr{"Grpc-Status": {st}}}))
+					}
+				}
+				// "grpc-status: 0" already in the headers (the trailers-only form of success), and yet
+				// a body follows - complete, cut inside an envelope, or not an envelope at all
+				for _, b := range [][]bodyItem{
+					{{kind: "f", data: []byte{1}}},
+					{{kind: "f", flags: 1, data: []byte{2, 7}}}, // marked compressed, no encoding agreed
+					{{kind: "f", flags: 64, data: []byte{1}}},   // a flag nobody defines
+					{{kind: "f", data: []byte{1}}, {kind: "f", flags: 1, data: []byte{2, 7}}},
+				} {
+					cdecOp(c, cdecLine(proto, kind, &sresp{status: 200, header: hdr{"Content-Type": {ct}, "Grpc-Status": {"0"}}, body: b}))
 				}
 				// missing terminator
 				cdecOp(c, cdecLine(proto, kind, &sresp{status: 200, header: hdr{"Content-Type": {ct}}, body: []bodyItem{{kind: "f", data: []byte{1}}}}))
